@@ -109,6 +109,80 @@ def gen(args) -> list:
             except Exception as e:  # noqa: BLE001
                 ev["exc"] = type(e).__name__
             evs.append(ev)
+        elif c < 0.47:
+            # LocalDate +/- Period with several date units: applied years, months, weeks, days in that order
+            d = ctor(days_since_epoch=rday(cal), calendar=cal)
+            if rnd.random() < 0.5:
+                d = LocalDate(d.year, d.month, cal.get_days_in_month(d.year, d.month), cal)
+            amts = {"years": rnd.choice([0, 0, 1, -1, 4, rnd.randint(-30, 30)]), "months": rnd.choice([0, 1, -1, 12, 13, rnd.randint(-40, 40)]),
+                    "weeks": rnd.choice([0, 0, rnd.randint(-60, 60)]), "days": rnd.choice([0, 1, -1, rnd.randint(-500, 500)])}
+            p = Period.zero
+            for kk, v in amts.items():
+                if v:
+                    p = p + getattr(Period, "from_" + kk)(v)
+            minus = rnd.random() < 0.5
+            eff = {kk: -v for kk, v in amts.items()} if minus else amts
+            ev = {"op": "date_period", "minus": minus, "y": d.year, "m": d.month, "d": d.day, "n": d._days_since_epoch, **eff, **base}
+            try:
+                if minus:
+                    r = rnd.choice([lambda: d - p, lambda: d.minus(p), lambda: LocalDate.subtract(d, p)])()
+                else:
+                    r = rnd.choice([lambda: d + p, lambda: d.plus(p), lambda: LocalDate.add(d, p)])()
+                ev["res"], ev["res_cal"] = r._days_since_epoch, r.calendar.id
+            except Exception as e:  # noqa: BLE001
+                ev["exc"] = type(e).__name__
+            evs.append(ev)
+        elif c < 0.52:
+            # the period value itself: componentwise + and -, builder round trip and indexing, equality and hash
+            from pyoda_time import PeriodBuilder
+
+            def rp():
+                vals = [0 if rnd.random() < 0.4 else rnd.choice([1, -1, rnd.randint(-10**6, 10**6), rnd.randint(-10**9, 10**9)]) for _ in UNIT_NAMES]
+                b = PeriodBuilder()
+                for u, v in zip(UNIT_NAMES, vals):
+                    setattr(b, u, v)
+                return vals, b.build()
+
+            pv, pp = rp()
+            qv, qq = rp()
+            comps = lambda x: [getattr(x, u) for u in UNIT_NAMES]  # noqa: E731
+            ev = {"op": "period_algebra", "p": pv, "q": qv, "built": comps(pp)}
+            try:
+                ev["sum"] = comps(rnd.choice([lambda: pp + qq, lambda: Period.add(pp, qq)])())
+                ev["diff"] = comps(rnd.choice([lambda: pp - qq, lambda: Period.subtract(pp, qq)])())
+                ev["rebuilt"] = comps(pp.to_builder().build())
+                ev["from_period"] = comps(PeriodBuilder.from_period(pp).build())
+                _, same = pv, None
+                b2 = pp.to_builder()
+                i = rnd.randrange(10)
+                unit_flag = flags[i]
+                ev["index_read"] = b2[unit_flag] == pv[i]
+                b2[unit_flag] = pv[i] + 1
+                changed = b2.build()
+                ev["changed"] = comps(changed)
+                ev["changed_index"] = i + 1
+                copy = pp.to_builder().build()
+                ev["eq_copy"] = (pp == copy) and pp.equals(copy) and not (pp != copy) and hash(pp) == hash(copy)
+                ev["ne_changed"] = (pp != changed) and not (pp == changed) and not pp.equals(changed)
+                ev["has_date"] = pp.has_date_component
+                ev["has_time"] = pp.has_time_component
+            except Exception as e:  # noqa: BLE001
+                ev["exc"] = type(e).__name__
+            evs.append(ev)
+        elif c < 0.55:
+            yy = rnd.randint(cal.min_year, cal.max_year)
+            mm = rnd.randint(1, cal.get_months_in_year(yy))
+            cc = rnd.random()
+            k = rnd.randint(-40, 40) if cc < 0.6 else rnd.randint(-3000, 3000) if cc < 0.9 else rnd.randint(-130000, 130000)
+            ev = {"op": "ym_plus", "y": yy, "m": mm, "d": 1, "k": k, **base}
+            try:
+                r = YearMonth(year=yy, month=mm, calendar=cal).plus_months(k)
+                ev["res"] = [r.year, r.month, 1]
+                ev["res_dim"] = cal.get_days_in_month(r.year, r.month)
+                ev["res_cal"] = r.calendar.id
+            except Exception as e:  # noqa: BLE001
+                ev["exc"] = type(e).__name__
+            evs.append(ev)
         elif c < 0.85:
             kind = rnd.choice(["date", "date", "datetime", "time", "yearmonth"])
             nbits = rnd.choice([1, 1, 2, 3, rnd.randint(1, 10)])
@@ -201,6 +275,18 @@ def gen(args) -> list:
                 big = {"years": 10**4, "months": 10**5, "weeks": 10**6, "days": 10**7, "hours": 10**8, "minutes": 10**10, "seconds": 10**12,
                        "milliseconds": 10**15, "ticks": 10**18, "nanoseconds": 10**19}[u]   # the total stays inside the Duration range
                 comps[u] = 0 if cc < 0.3 else rnd.randint(-100, 100) if cc < 0.7 else rnd.randint(-10**6, 10**6) if cc < 0.9 else rnd.randint(-big, big)
+            if rnd.random() < 0.25:
+                # a total within a few nanoseconds of a whole number of days, many days out
+                dd = rnd.choice([1, -1]) * rnd.choice([1, 128, 129, 200, 10**4, 36525, rnd.randint(100, 10**7)])
+                comps = {u: 0 for u in UNIT_NAMES}
+                how = rnd.randrange(3)
+                if how == 0:
+                    comps["days"] = dd
+                elif how == 1:
+                    comps["hours"] = 24 * dd
+                else:
+                    comps["weeks"], comps["days"] = dd // 7 if dd > 0 else -((-dd) // 7), (dd % 7 if dd > 0 else -((-dd) % 7))
+                comps[rnd.choice(["nanoseconds", "ticks"])] = rnd.choice([-1, 1, -3, 3, -300, 300, rnd.randint(-999, 999)])
             if rnd.random() < 0.5:
                 comps["years"] = comps["months"] = 0
             p = Period.zero
